@@ -384,7 +384,7 @@ class MultiCrossBlockRepeat(Block):
                 c_size = self.preamble_size(c)
                 if size is None:
                     size = c_size
-                else:
+                elif size != c_size:
                     raise ValueError("Inconsistent preamble size for factor")
         return 0 if size is None else size
 
